@@ -37,6 +37,8 @@ func ruleR20_2(r *Run) {
 		{"dvid", "", "ReadRLEs"}, {"dvid", "RLEs", "UnmarshalBinary"}, {"dvid", "RLEs", "UnmarshalBinaryReader"},
 		{"dvid", "", "DeserializeData"},
 		{"storage/filelog", "fileLogs", "ReadAll"}, {"storage/filelog", "fileLogs", "StreamAll"},
+		// JSON-decoded request tuples indexed by position
+		{"datatype/common/labels", "MergeTuple", "Op"},
 	}
 	var fs []*ssa.Function
 	for _, d := range table {
@@ -54,7 +56,21 @@ func ruleR20_2(r *Run) {
 	}
 	reach := map[*ssa.Function]bool{}
 	for _, f := range fs {
-		n, viol := checkBufferBounds(f, nil)
+		var only func(ssa.Value) bool
+		if rp := recvParam(f); rp != nil {
+			if _, isSlice := rp.Type().Underlying().(*types.Slice); isSlice && f.Name() == "Op" {
+				// a request tuple: the receiver slice itself is the untrusted buffer
+				only = func(buf ssa.Value) bool {
+					for _, rt := range roots(buf, f) {
+						if rt.V == ssa.Value(rp) {
+							return true
+						}
+					}
+					return false
+				}
+			}
+		}
+		n, viol := checkBufferBounds(f, only)
 		var wit []string
 		for _, v := range viol {
 			wit = append(wit, fmt.Sprintf("%s: %s %s of %s", w.pos(v.In.Pos()), v.What, shortForm(v.Bound), shortForm(v.Buffer)))
